@@ -80,6 +80,19 @@ func (c *C04Write) Run() string {
 				want[k], _ = binop("Add", A.arr.E[k], s)
 			}
 			_, lerr = tensor.Add(t, s, tensor.UseUnsafe())
+		case "CopyIntoFlat":
+			// from a vector with as many elements: they land in logical (row-major) order of the view
+			flat := Opnd{Shape: []int{n}, Codes: make([]int64, n), L: Layout{Root: "rm"}}
+			for k := range flat.Codes {
+				flat.Codes[k] = 31 + (c.Code+int64(k))%29
+			}
+			var m string
+			if S, m = buildOpnd(&flat, d); m != "" {
+				msg = m
+				return
+			}
+			copy(want, S.arr.E)
+			lerr = tensor.Copy(t, S.b.T)
 		case "UnsafeAdd", "CopyInto":
 			var m string
 			if S, m = buildOpnd(c.Src, d); m != "" {
@@ -219,6 +232,11 @@ func (c *C04Copy) Run() string {
 		case "CopyTo":
 			cp = tensor.New(tensor.Of(d.T), tensor.WithShape(c.A.Shape...))
 			lerr = t.CopyTo(cp)
+		case "CopyFlatten":
+			// into a vector with as many elements: they arrive in logical (row-major) order
+			cp = tensor.New(tensor.Of(d.T), tensor.WithShape(prod(c.A.Shape)))
+			lerr = tensor.Copy(cp, t)
+			want = Arr{DT: d, Shape: []int{prod(c.A.Shape)}, E: A.arr.E}
 		case "ToMat64":
 			m, err := tensor.ToMat64(t)
 			lerr = err
@@ -391,12 +409,12 @@ func (c *C04Copy) Run() string {
 
 // ---------------------------------------------------------------- cells
 
-var c04ViewKinds = []string{"sliced", "stepsliced", "lazyT", "slicedT", "Tsliced", "picked", "pickslice", "leadsliced", "cmraw+sliced", "cmraw+lazyT"}
+var c04ViewKinds = []string{"sliced", "stepsliced", "lazyT", "slicedT", "Tsliced", "picked", "pickslice", "leadsliced", "cmraw+sliced", "cmraw+lazyT", "cmraw", "cmconv"}
 var c04SrcKinds = []string{"contig", "sliced", "stepsliced", "lazyT", "slicedT", "Tsliced", "picked", "pickslice", "materialized", "clonedview", "physT", "cmraw", "cmconv", "cmraw+sliced"}
 var c04DTs = []DT{dtInt8, dtBool, dtInt16, dtF32, dtF64, dtC128, dtStr, dtUint32}
 
 func TestC04(t *testing.T) {
-	writes := []string{"Memset", "Zero", "SetAtSweep", "UnsafeNeg", "UnsafeAdd", "UnsafeAddScalar", "CopyInto", "ApplyUnsafe", "RootSetAt"}
+	writes := []string{"Memset", "Zero", "SetAtSweep", "UnsafeNeg", "UnsafeAdd", "UnsafeAddScalar", "CopyInto", "CopyIntoFlat", "ApplyUnsafe", "RootSetAt"}
 	for _, w := range writes {
 		for _, vk := range c04ViewKinds {
 			w, vk := w, vk
@@ -420,7 +438,7 @@ func TestC04(t *testing.T) {
 			})
 		}
 	}
-	copies := []string{"Clone", "Materialize", "SafeT", "pkgT", "pkgTranspose", "CopyFresh", "CopyTo", "ToMat64", "Native"}
+	copies := []string{"Clone", "Materialize", "SafeT", "pkgT", "pkgTranspose", "CopyFresh", "CopyTo", "CopyFlatten", "ToMat64", "Native"}
 	for _, op := range copies {
 		for _, sk := range c04SrcKinds {
 			op, sk := op, sk
